@@ -1,6 +1,7 @@
 package main
 
 import (
+	"fmt"
 	"go/token"
 	"go/types"
 )
@@ -84,6 +85,23 @@ func addLibIntrinsics(m map[string]intrinsicFn) {
 	}
 	m["google.golang.org/grpc/encoding.RegisterCodec"] = func(fr *frame, a []value) value { return nil }
 	m["google.golang.org/grpc/encoding.RegisterCompressor"] = func(fr *frame, a []value) value { return nil }
+	// time: the clock is abstract. time.Until returns the harness-chosen remaining
+	// duration (SetUntil) or an arbitrary int64.
+	m["time.Until"] = func(fr *frame, a []value) value {
+		p := fr.p
+		if v, ok := p.ghost["until"]; ok {
+			return v
+		}
+		p.objSeq++
+		return p.symInt(fmt.Sprintf("time.Until#%d", p.objSeq), 64, true)
+	}
+	m["time.Since"] = func(fr *frame, a []value) value {
+		p := fr.p
+		p.objSeq++
+		return p.symInt(fmt.Sprintf("time.Since#%d", p.objSeq), 64, true)
+	}
+	m["time.Now"] = func(fr *frame, a []value) value { return fr.p.zero(fr.fn.Signature.Results().At(0).Type()) }
+	m[apiName("SetUntil")] = func(fr *frame, a []value) value { fr.p.ghost["until"] = a[0]; return nil }
 	// sync.Pool: no pooling, always a fresh value
 	m["(*sync.Pool).Get"] = func(fr *frame, a []value) value {
 		p := fr.p
